@@ -56,7 +56,15 @@ def run(ctx):
               # float control points: containment tests project points with Newton's iteration, which explodes on Fractions
               ("rounded-quadratic", lambda: SimpleShape(JordanCurve.from_ctrlpoints([[(float(x), float(y)) for x, y in c] for c in rounded(shapes.rand_simple_vs(rng, 0, 0, R=5, n=5), cubic=False)]))),
               ("rounded-cubic", lambda: SimpleShape(JordanCurve.from_ctrlpoints([[(float(x), float(y)) for x, y in c] for c in rounded(shapes.rand_simple_vs(rng, 0, 0, R=5, n=4), cubic=True)]))),
-              ("circle-inverted", lambda: ~Primitive.circle(radius=1, ndivangle=4))]
+              ("circle-inverted", lambda: ~Primitive.circle(radius=1, ndivangle=4)),
+              ("polygon", lambda: shapes.simple(shapes.rand_simple_vs(rng, 0, 0, R=5, n=5)))]
+
+    def answers(X):
+        """what the object ANSWERS (derived / cached state included): boxes of the shape and of its curves, closed membership of its own vertices, a far point, area"""
+        b = X.box()
+        vs = [tuple(v) for j in X.jordans for v in j.vertices][:4]
+        return (tuple(b.lowpt), tuple(b.toppt), [(tuple(j.box().lowpt), tuple(j.box().toppt)) for j in X.jordans],
+                [X.contains_point(v, True) for v in vs], (1000.0, 777.0) in X, float(X))
     producers = [("copy", lambda S: copy.copy(S)), ("deepcopy", lambda S: copy.deepcopy(S)), ("invert", lambda S: ~S), ("neg", lambda S: -S),
                  ("SimpleShape(jordan)", lambda S: SimpleShape(S.jordans[0])), ("copy(jordan)", lambda S: SimpleShape(copy.copy(S.jordans[0]))),
                  ("or Empty", lambda S: S | EmptyShape()), ("and Whole", lambda S: S & WholeShape()), ("Empty or", lambda S: EmptyShape() | S),
@@ -64,6 +72,7 @@ def run(ctx):
     for cname, mk in curved:
         for pname, prod in producers:
             S = mk()
+            answers(S)                          # the source has been used before it is copied: its caches are warm
             snap0 = ctrl_snapshot(S)
             ctx.case("curved-copy", (cname, pname))
             try:
@@ -73,8 +82,15 @@ def run(ctx):
             ctx.check(ctrl_snapshot(S) == snap0, "producing a copy/result changed the curved operand", {"shape": cname, "producer": pname})
             ctx.check(not (shapes.point_ids(R) & shapes.point_ids(S)), "curved result shares Point2D objects with its source", {"shape": cname, "producer": pname})
             rsnap = ctrl_snapshot(R)
+            aS = answers(S)
             R.move(3, 0.5); R.scale(2, 3)
             ctx.check(ctrl_snapshot(S) == snap0, "transforming the result changed the curved source", {"shape": cname, "producer": pname})
+            ctx.check(answers(S) == aS, "transforming the result changed what the source ANSWERS (box / boundary membership / area)", {"shape": cname, "producer": pname}, aS, answers(S))
+            R3 = prod(S)
+            aR3 = answers(R3)
+            S.move(-2.5, 1.25)
+            ctx.check(answers(R3) == aR3, "moving the source changed what an earlier result ANSWERS (box / boundary membership / area)", {"shape": cname, "producer": pname}, aR3, answers(R3))
+            S.move(2.5, -1.25)
             R2 = prod(S)
             r2 = ctrl_snapshot(R2)
             S.rotate(90, degrees=True); S.move(-1, 4)
